@@ -116,7 +116,15 @@ func (c *reconnectClient) Connect(ctx context.Context, clientID string, opts ...
 								c.options.PingInterval,
 								c.options.Timeout,
 							); err != nil {
-								c.Client().SetErrorOnce(err)
+								if ctxKeepAlive.Err() != nil {
+									// The connection is already finished; it is not a keep alive failure.
+									return
+								}
+								baseCli.mu.Lock()
+								if baseCli.connState != StateDisconnected {
+									baseCli.SetErrorOnce(err)
+								}
+								baseCli.mu.Unlock()
 								// The client should close the connection if PINGRESP is not returned.
 								// MQTT 3.1.1 spec. 3.1.2.10
 								baseCli.Close()
